@@ -14,6 +14,7 @@ var oddOpNames = []string{"", "and", "Equals", "UNDEFINED", "XOR", "RANGE ", "MU
 
 var jsonScalars = []string{
 	`"a"`, `"b"`, `"foo bar"`, `""`, `"*"`, `"w*"`, `"te?t"`, `"/re/"`, `"/"`, `"//"`, `"a\"b"`, `"a'b"`, `"é日"`, `"é"`, `"😀"`, `"\ud800"`,
+	`"日本*"`, `"é?x"`, `"ÅÄÖ*"`, `"日*本?"`, `"ÿ*"`, `"/日本/"`, `"a%b*"`, `"a_b?"`, `"''*"`, `"` + strings.Repeat("é", 70) + `*"`,
 	`"a\u0000b"`, `"x,y"`, `"5"`, `"-"`, `"AND"`, `"%!s(int=1)"`,
 	`0`, `1`, `5`, `-3`, `42`, `1.5`, `-0.25`, `5.0`, `-0`, `-0.0`, `1e2`, `1E-2`, `1e999`, `9223372036854775807`, `9223372036854775808`, `0.1e1`, `100000000000000000000`, `1e21`, `1e-7`,
 	`true`, `false`, `null`,
